@@ -120,7 +120,7 @@ def main(argv):
         # behaviour-preserving refactors: every property's rules must stay silent
         from concurrent.futures import ThreadPoolExecutor
         items = collect(argv[1])
-        with ThreadPoolExecutor(max_workers=3) as ex:
+        with ThreadPoolExecutor(max_workers=int(os.environ.get("VERIF_BENIGN_JOBS", "3"))) as ex:
             results = list(ex.map(lambda it: run_one(it[0], "all", None), items))
         bad = 0
         for r in results:
